@@ -228,7 +228,7 @@ func TestVerif_C11(t *testing.T) {
 			}
 		}
 		a.stop(vStopWatchdog)
-		if res.nViol() > 200 {
+		if res.giveUp(200) {
 			break
 		}
 	}
